@@ -31,6 +31,9 @@ func init() {
 	for _, m := range []string{"setBytes", "bytes", "appendBytes"} {
 		ts = append(ts, tracked{"pisces", "memEntry", m})
 	}
+	for _, m := range []string{"Mutate", "AppendBytes", "Emplace", "Add", "AddClass", "Replace", "Remove", "GetBytes"} {
+		ts = append(ts, tracked{"pisces", "KV", m})
+	}
 	ts = append(ts, tracked{"pisces", "", "newMemEntry"}, tracked{"pisces", "", "newMemKV"},
 		tracked{"pisces", "sqlite3KV", "mutate"}, tracked{"pisces", "sqlite3KV", "add"},
 		tracked{"pisces", "sqlite3KV", "emplace"}, tracked{"pisces", "sqlite3KV", "replace"},
